@@ -13,7 +13,7 @@ def c13_samples(w):
 
     w("-- xsdata/formats/converter.py __EXPLICIT_TYPES__ with DataType.from_type (C13)")
     pairs = [(tp.__name__, str(DataType.from_type(tp))) for tp in converter.explicit_types()]
-    w("def explicitTypes : List (List Char × List Char) := [" + ", ".join(f"({chars(a)}, {chars(b)})" for a, b in pairs) + "]")
+    w("def explicitTypesDt : List (List Char × List Char) := [" + ", ".join(f"({chars(a)}, {chars(b)})" for a, b in pairs) + "]")
     w(f"def dtString : List Char := {chars(str(DataType.STRING))}")
     w(f"def dtAnySimpleType : List Char := {chars(str(DataType.ANY_SIMPLE_TYPE))}")
     w(f"def dtAnyType : List Char := {chars(str(DataType.ANY_TYPE))}")
